@@ -28,7 +28,7 @@ LEVEL_NOTE = ("Tolerance 1e-6 relative to the largest contributing node (float32
 RULE = ("case = one world x 3 subgrids x 2000 positions (kinds: random nodes, per-level linear, linear in x,y,z over a flat bottom). Non-trivial: land faces contribute, positions "
         "on edges/rim and depths outside the level range are present; distinct by world parameters.")
 MANDATORY = ["positions_compared", "land_face_contributes", "depth_above_top_level", "depth_below_bottom_level", "depth_on_level", "edge_tie_positions", "rim_positions",
-             "packed_storage", "packed_with_different_scale_factors", "subgrid_pairs_compared", "scalar_values_compared", "linear_levels_exact", "linear3d_exact", "convexity_checked", "vtransform2", "e2e_displacements_checked", "e2e_scalar_values_checked", "consecutive_update_values_compared", "second_file_with_other_packing"]
+             "packed_storage", "packed_with_different_scale_factors", "subgrid_pairs_compared", "scalar_values_compared", "linear_levels_exact", "linear3d_exact", "convexity_checked", "vtransform2", "e2e_displacements_checked", "e2e_scalar_values_checked", "consecutive_update_values_compared", "second_file_with_other_packing", "later_frame_nonzero_on_land_faces_first_frame_zero"]
 ASSUMPTIONS = ["add_offset of packed u/v is zero (the code documents that it ignores it)", "positions inside the valid region of every subgrid used"]
 TIMEOUT = {"quick": 900, "thorough": 3400}
 
@@ -209,6 +209,9 @@ def run_case(case: dict[str, Any], wd: Path) -> dict[str, Any]:
         sit_pack_differs = spec["pack"]["u"] != spec["pack"]["v"]
         # the second file is packed with other parameters than the first
         spec["pack_per_file"] = [dict(spec["pack"]), dict(u=2.0e-4, v=5.0e-5, temp=(0.002, 5.0), salt=(0.002, 17.0))]
+    land_zero_first = bool(kind == "random" and mask.get("p", 0.0) > 0 and case["idx"] % 2 == 0)
+    if land_zero_first:
+        spec["land_zero_frames"] = [0]  # first frame as the ocean model writes it (zero on land faces), the next one filled with values there
     w = W.write_world(wd / "w", spec)
     raw = read_frame0(w["files"], ["u", "v", "temp", "salt"])
     with Dataset(w["gridfile"]) as nc:
@@ -313,6 +316,7 @@ def run_case(case: dict[str, Any], wd: Path) -> dict[str, Any]:
         U2, V2, sc2 = second
         sit["consecutive_update_values_compared"] = n
         sit["second_file_with_other_packing"] = int(two_files)
+        sit["later_frame_nonzero_on_land_faces_first_frame_zero"] = int(land_zero_first)
         d2 = max(float(np.max(np.abs(U2 - U0))), float(np.max(np.abs(V2 - V0))), float(np.max(np.abs(sc2["temp"] - sc0["temp"]))))
         if two_files:  # quantisation steps of the two files: u, v <= 2e-4, temp <= 2e-3
             d2 = max(float(np.max(np.abs(U2 - U0))) / 4.0e-4, float(np.max(np.abs(V2 - V0))) / 4.0e-4, float(np.max(np.abs(sc2["temp"] - sc0["temp"]))) / 3.0e-3)
@@ -320,7 +324,7 @@ def run_case(case: dict[str, Any], wd: Path) -> dict[str, Any]:
         if d2 > 0.0:
             k = int(np.argmax(np.abs(U2 - U0) + np.abs(V2 - V0) + np.abs(sc2["temp"] - sc0["temp"])))
             V.append(C.viol(f"second update() of the same Forcing (same particle count, particles permuted): particle at ({X[k]},{Y[k]},Z={Z[k]}) gets ({U2[k]:.8f},{V2[k]:.8f}, temp {sc2['temp'][k]}) "
-                            f"instead of ({U0[k]:.8f},{V0[k]:.8f}, temp {sc0['temp'][k]}): per-particle data of the previous step leaks into this one", **desc))
+                            f"instead of ({U0[k]:.8f},{V0[k]:.8f}, temp {sc0['temp'][k]}): per-particle data of the previous step leaks into this one, or the later frame is treated differently (masking, unpacking)", **desc))
     if np.max(np.abs(fu0 - U0)) > 1e-12 or np.max(np.abs(fv0 - V0)) > 1e-12:
         V.append(C.viol("forcing.variables['u','v'] after update() differ from forcing.velocity at the same positions", **desc))
 
